@@ -29,6 +29,8 @@ const DOCS: &[(&str, usize)] = &[
     ("subscription { ev { n n2 } x: ev { a n } }", 1),
     ("subscription { ev { o { n a } n } evn }", 1),
     ("subscription { evn evnn }", 2),
+    ("subscription { evonn { n a } }", 2),
+    ("subscription { evonn { n2 onn { a n } } }", 2),
     ("{ n a o { n } }", 1),
     ("mutation { mn inc }", 1),
 ];
